@@ -9,7 +9,10 @@ use std::process::{Command, Stdio};
 use std::sync::{Arc, Mutex};
 use std::time::Instant;
 
-pub const VERIF_DIR: &str = "/verif";
+/// root of the verification tree (the directory holding ./check); /verif unless ./check says otherwise
+pub fn verif_dir() -> String {
+    std::env::var("VERIF_ROOT").unwrap_or_else(|_| "/verif".to_string())
+}
 const MAX_VIOLATIONS: usize = 12;
 
 #[derive(Clone, Debug)]
@@ -196,7 +199,7 @@ pub fn run(opts: RunOptions) -> i32 {
     let nchunks = layout.chunks();
     let nshards = (opts.jobs as u64).min(nchunks).max(1);
     let track_hashes = layout.total <= 30_000_000;
-    let tmpdir = PathBuf::from(VERIF_DIR).join("target").join("tmp").join(format!("{}-{}-{}", prop.id, opts.tier.name(), std::process::id()));
+    let tmpdir = PathBuf::from(verif_dir()).join("target").join("tmp").join(format!("{}-{}-{}", prop.id, opts.tier.name(), std::process::id()));
     std::fs::create_dir_all(&tmpdir).ok();
 
     let mut queue = VecDeque::new();
@@ -432,7 +435,7 @@ pub fn run(opts: RunOptions) -> i32 {
     let mut reported = 0usize;
     let mut known_hits: BTreeMap<String, u64> = BTreeMap::new();
     let mut unconfirmed = 0usize;
-    let replay_dir = PathBuf::from(VERIF_DIR).join("replays").join(prop.id);
+    let replay_dir = PathBuf::from(verif_dir()).join("replays").join(prop.id);
     let mut seen_signatures: BTreeSet<String> = BTreeSet::new();
     for f in shared.found.iter().take(MAX_VIOLATIONS * 2) {
         let (fam, idx) = layout.locate(f.g);
@@ -614,7 +617,7 @@ pub fn run(opts: RunOptions) -> i32 {
         "wall_s": wall,
         "violations": reported,
     });
-    let evdir = PathBuf::from(VERIF_DIR).join("evidence");
+    let evdir = PathBuf::from(verif_dir()).join("evidence");
     std::fs::create_dir_all(&evdir).ok();
     let evpath = evdir.join(format!("{}.json", prop.id));
     if let Err(e) = std::fs::write(&evpath, serde_json::to_string_pretty(&evidence).unwrap() + "\n") {
@@ -727,7 +730,7 @@ impl KnownFinding {
 }
 
 pub fn load_known(prop: &str) -> Vec<KnownFinding> {
-    let path = Path::new(VERIF_DIR).join("known_findings.json");
+    let path = Path::new(&verif_dir()).join("known_findings.json");
     let mut out = Vec::new();
     if let Ok(s) = std::fs::read_to_string(path) {
         if let Ok(v) = serde_json::from_str::<Value>(&s) {
